@@ -2,3 +2,529 @@
 From Coq Require Import ZArith List Bool Reals Lia.
 From Verif Require Import Base.Num Base.Check C20.Syntax C20.Model.
 Import ListNotations.
+
+(* ------------------------------------------------------------ leaves at R *)
+Lemma Reqb_refl x : Reqb x x = true.
+Proof. destruct (Reqb_spec x x); congruence. Qed.
+Lemma Reqb_true x y : Reqb x y = true <-> x = y.
+Proof. destruct (Reqb_spec x y); split; congruence. Qed.
+Lemma neqb_R x y : @neqb R _ x y = true <-> x = y.
+Proof. numR. apply Reqb_true. Qed.
+
+Lemma all2_eq {A} (f : A -> A -> bool) :
+  (forall x y, f x y = true <-> x = y) -> forall l m, all2 f l m = true <-> l = m.
+Proof.
+  intros Hf l; induction l as [|a l IH]; intros [|b m]; cbn; split; intro E; try congruence.
+  - apply andb_true_iff in E as [E1 E2]. apply Hf in E1. apply IH in E2. congruence.
+  - inversion E; subst. apply andb_true_iff; split; [apply Hf | apply IH]; reflexivity.
+Qed.
+
+Lemma dtype_eqb_eq a b : dtype_eqb a b = true <-> a = b.
+Proof. destruct a, b; cbn; split; intro E; congruence. Qed.
+
+Lemma Zs_eqb_eq a b : Zs_eqb a b = true <-> a = b.
+Proof. apply all2_eq. intros; apply Z.eqb_eq. Qed.
+
+Lemma ext_eqb_eq (a b : ext R) : ext_eqb a b = true <-> a = b.
+Proof.
+  destruct a, b; cbn; split; intro E; try congruence.
+  - apply neqb_R in E; congruence.
+  - inversion E; subst. apply neqb_R; reflexivity.
+Qed.
+
+Lemma expo_eqb_eq (a b : expo R) : expo_eqb a b = true <-> a = b.
+Proof.
+  destruct a, b; cbn; split; intro E; try congruence.
+  - apply neqb_R in E; congruence.
+  - inversion E; subst. apply neqb_R; reflexivity.
+Qed.
+
+Lemma atom_eqb_eq (a b : atom R) : atom_eqb a b = true <-> a = b.
+Proof.
+  destruct a, b; cbn; split; intro E; try congruence.
+  - apply neqb_R in E; congruence.
+  - inversion E; subst. apply neqb_R; reflexivity.
+  - apply Z.eqb_eq in E; congruence.
+  - inversion E; subst. apply Z.eqb_refl.
+  - apply (all2_eq _ neqb_R) in E; congruence.
+  - inversion E; subst. apply (all2_eq _ neqb_R); reflexivity.
+Qed.
+
+(* ------------------------------------------------------------ weightings *)
+(* Weighting equality ignores the class family: it is equality of the stripped descriptor *)
+Definition w_strip (w : weighting R) : weighting R :=
+  match w with
+  | WConst _ c e => WConst KNpy c e
+  | WArray _ i e => WArray KNpy i e
+  | WInner _ f => WInner KNpy f
+  | WNorm _ f => WNorm KNpy f
+  | WDist _ f => WDist KNpy f
+  end.
+
+Lemma one_ne_two : (IZR 1 <> IZR 2)%R.
+Proof. intro E. apply eq_IZR in E. discriminate. Qed.
+
+Lemma w_eqb_strip a b : w_eqb a b = true <-> w_strip a = w_strip b.
+Proof.
+  unfold w_eqb. rewrite andb_true_iff, expo_eqb_eq.
+  destruct a, b; cbn; split; intro E; try (destruct E; congruence); try congruence.
+  all: try (destruct E as [E1 E2]; first [apply neqb_R in E2 | apply Z.eqb_eq in E2]; congruence).
+  all: try (inversion E; subst; split; [reflexivity | first [apply neqb_R | apply Z.eqb_refl]; reflexivity]).
+Qed.
+
+Definition tsp_strip (t : tsp R) : tsp R :=
+  {| ts_shape := ts_shape t; ts_dtype := ts_dtype t; ts_w := w_strip (ts_w t) |}.
+
+Lemma tsp_eqb_strip a b : tsp_eqb a b = true <-> tsp_strip a = tsp_strip b.
+Proof.
+  unfold tsp_eqb, tsp_strip. rewrite !andb_true_iff, Zs_eqb_eq, dtype_eqb_eq, w_eqb_strip.
+  destruct a, b; cbn. split; [intros [[-> ->] ->]; reflexivity | intro E; inversion E; auto].
+Qed.
+
+Lemma tsp_eqb_refl a : tsp_eqb a a = true.
+Proof. apply tsp_eqb_strip; reflexivity. Qed.
+Lemma tsp_eqb_sym a b : tsp_eqb a b = tsp_eqb b a.
+Proof.
+  destruct (tsp_eqb a b) eqn:E1, (tsp_eqb b a) eqn:E2; try reflexivity.
+  - apply tsp_eqb_strip in E1. symmetry in E1. apply tsp_eqb_strip in E1. congruence.
+  - apply tsp_eqb_strip in E2. symmetry in E2. apply tsp_eqb_strip in E2. congruence.
+Qed.
+
+(* ------------------------------------------------------------ grids, intervals, partitions *)
+Lemma map_length_eq {A} (a b : list (list A)) :
+  all2 Nat.eqb (map (@length A) a) (map (@length A) b) = true -> length a = length b.
+Proof.
+  revert b; induction a as [|x a IH]; intros [|y b]; cbn; try congruence.
+  intro E. apply andb_true_iff in E as [_ E]. f_equal; auto.
+Qed.
+
+Lemma grid_eqb_eq (a b : list (list R)) : grid_eqb a b = true <-> a = b.
+Proof.
+  unfold grid_eqb. split.
+  - intro E. apply andb_true_iff in E as [_ E].
+    apply (all2_eq _ (all2_eq _ neqb_R)) in E. exact E.
+  - intros ->. apply andb_true_iff; split.
+    + induction b as [|x b IH]; cbn; [reflexivity|]. rewrite Nat.eqb_refl. exact IH.
+    + apply (all2_eq _ (all2_eq _ neqb_R)). reflexivity.
+Qed.
+
+Lemma map_fst_snd_eq {A B} (a b : list (A * B)) :
+  map fst a = map fst b -> map snd a = map snd b -> a = b.
+Proof.
+  revert b; induction a as [|[x y] a IH]; intros [|[x' y'] b]; cbn; intros E1 E2; try congruence.
+  inversion E1; inversion E2; subst. f_equal. auto.
+Qed.
+
+Section Guard.
+Variable v : variants.
+Hypothesis Hg : v_intv_guard v = true.
+
+Lemma intv_eqt_TT (a b : list (ext R * ext R)) : intv_eqt v a b = TT <-> a = b.
+Proof.
+  unfold intv_eqt. rewrite Hg. split.
+  - destruct (Nat.eqb (length a) (length b)); [|discriminate].
+    destruct (all2 ext_eqb (map fst a) (map fst b)) eqn:E1; [|discriminate].
+    destruct (all2 ext_eqb (map snd a) (map snd b)) eqn:E2; [|discriminate].
+    intros _. apply (all2_eq _ ext_eqb_eq) in E1, E2. apply map_fst_snd_eq; assumption.
+  - intros ->. rewrite Nat.eqb_refl.
+    replace (all2 ext_eqb (map fst b) (map fst b)) with true by (symmetry; apply (all2_eq _ ext_eqb_eq); reflexivity).
+    replace (all2 ext_eqb (map snd b) (map snd b)) with true by (symmetry; apply (all2_eq _ ext_eqb_eq); reflexivity).
+    reflexivity.
+Qed.
+
+Lemma intv_eqt_noraise (a b : list (ext R * ext R)) : intv_eqt v a b <> EE.
+Proof.
+  unfold intv_eqt. rewrite Hg. destruct (Nat.eqb _ _); [|discriminate].
+  destruct (_ && _); discriminate.
+Qed.
+
+Lemma part_eqt_TT (p q : part R) : part_eqt v p q = TT <-> p = q.
+Proof.
+  unfold part_eqt. destruct p as [pi pg], q as [qi qg]; cbn. split.
+  - destruct (intv_eqt v pi qi) eqn:E1; cbn; try discriminate.
+    destruct (grid_eqb pg qg) eqn:E2; cbn; try discriminate.
+    intros _. apply intv_eqt_TT in E1. apply grid_eqb_eq in E2. congruence.
+  - intro E; inversion E; subst.
+    replace (intv_eqt v qi qi) with TT by (symmetry; apply intv_eqt_TT; reflexivity).
+    replace (grid_eqb qg qg) with true by (symmetry; apply grid_eqb_eq; reflexivity). reflexivity.
+Qed.
+
+Lemma part_eqt_noraise (p q : part R) : part_eqt v p q <> EE.
+Proof.
+  unfold part_eqt. pose proof (intv_eqt_noraise (p_intv p) (p_intv q)).
+  destruct (intv_eqt v _ _); cbn; try congruence. destruct (grid_eqb _ _); discriminate.
+Qed.
+
+End Guard.
+
+(* ------------------------------------------------------------ the recursive part: unfolding lemmas *)
+Section Unfold.
+Variable v : variants.
+Notation eqR := (@eqt R Num_R v).
+
+(* sequential all(...) / any(...) over tri-valued tests *)
+Fixpoint allt {A} (f : A -> tri) (l : list A) : tri :=
+  match l with [] => TT | x :: l' => match f x with TT => allt f l' | r => r end end.
+Fixpoint anyt {A} (f : A -> tri) (l : list A) : tri :=
+  match l with [] => FF | x :: l' => match f x with FF => anyt f l' | r => r end end.
+(* tuple comparison: items up to the shorter length, then the lengths *)
+Fixpoint tupt {A} (f : A -> A -> tri) (l1 l2 : list A) : tri :=
+  match l1, l2 with
+  | [], [] => TT
+  | [], _ :: _ => FF
+  | _ :: _, [] => FF
+  | x :: l1', y :: l2' => match f x y with TT => tupt f l1' l2' | r => r end
+  end.
+(* all(x == y for x, y in zip(l1, l2)) *)
+Fixpoint zipt {A} (f : A -> A -> tri) (l1 l2 : list A) : tri :=
+  match l1, l2 with
+  | x :: l1', y :: l2' => match f x y with TT => zipt f l1' l2' | r => r end
+  | _, _ => TT
+  end.
+
+Definition setlike_eqt (l1 l2 : list (obj R)) : tri :=
+  andt (allt (fun s => anyt (fun t => eqR s t) l2) l1)
+       (allt (fun t => anyt (fun s => eqR s t) l1) l2).
+
+Lemma eqt_cart l1 l2 : eqR (OCart l1) (OCart l2) = tupt eqR l1 l2.
+Proof.
+  cbn [eqt]. revert l2. induction l1 as [|x l1 IH]; intros [|y l2]; cbn [tupt]; try reflexivity.
+  destruct (eqR x y); try reflexivity. apply IH.
+Qed.
+
+Lemma setlike_unfold l1 l2 :
+  andt
+    ((fix all1 (l1 : list (obj R)) : tri :=
+        match l1 with
+        | [] => TT
+        | s :: l1' =>
+            match (fix any2 (l2 : list (obj R)) : tri :=
+                     match l2 with
+                     | [] => FF
+                     | t :: l2' => match eqR s t with FF => any2 l2' | r => r end
+                     end) l2
+            with TT => all1 l1' | r => r end
+        end) l1)
+    ((fix all2' (l2 : list (obj R)) : tri :=
+        match l2 with
+        | [] => TT
+        | t :: l2' =>
+            match (fix any1 (l1 : list (obj R)) : tri :=
+                     match l1 with
+                     | [] => FF
+                     | s :: l1' => match eqR s t with FF => any1 l1' | r => r end
+                     end) l1
+            with TT => all2' l2' | r => r end
+        end) l2)
+  = setlike_eqt l1 l2.
+Proof.
+  unfold setlike_eqt. f_equal.
+  - induction l1 as [|s l1 IH]; cbn [allt]; [reflexivity|].
+    assert (E : (fix any2 (l2 : list (obj R)) : tri :=
+                   match l2 with [] => FF | t :: l2' => match eqR s t with FF => any2 l2' | r => r end end) l2
+                = anyt (fun t => eqR s t) l2).
+    { clear. induction l2 as [|t l2 IH]; cbn [anyt]; [reflexivity|]. destruct (eqR s t); try reflexivity. apply IH. }
+    rewrite E. destruct (anyt _ l2); try reflexivity. apply IH.
+  - induction l2 as [|t l2 IH]; cbn [allt]; [reflexivity|].
+    assert (E : (fix any1 (l1 : list (obj R)) : tri :=
+                   match l1 with [] => FF | s :: l1' => match eqR s t with FF => any1 l1' | r => r end end) l1
+                = anyt (fun s => eqR s t) l1).
+    { clear. induction l1 as [|s l1 IH]; cbn [anyt]; [reflexivity|]. destruct (eqR s t); try reflexivity. apply IH. }
+    rewrite E. destruct (anyt _ l1); try reflexivity. apply IH.
+Qed.
+
+Lemma eqt_union l1 l2 : eqR (OUnion l1) (OUnion l2) = setlike_eqt l1 l2.
+Proof. cbn [eqt]. apply setlike_unfold. Qed.
+Lemma eqt_inter l1 l2 : eqR (OInter l1) (OInter l2) = setlike_eqt l1 l2.
+Proof. cbn [eqt]. apply setlike_unfold. Qed.
+
+Lemma eqt_prod l1 w1 f1 l2 w2 f2 :
+  eqR (OProd l1 w1 f1) (OProd l2 w2 f2) =
+  if negb (Nat.eqb (length l1) (length l2)) then FF
+  else if negb (w_eqb w1 w2) then FF else zipt eqR l1 l2.
+Proof.
+  cbn [eqt]. destruct (negb (Nat.eqb _ _)); [reflexivity|]. destruct (negb (w_eqb _ _)); [reflexivity|].
+  revert l2. induction l1 as [|x l1 IH]; intros [|y l2]; cbn [zipt]; try reflexivity.
+  destruct (eqR x y); try reflexivity. apply IH.
+Qed.
+
+(* ---- generic facts about the sequential combinators ---- *)
+Lemma allt_TT {A} (f : A -> tri) l : allt f l = TT <-> Forall (fun x => f x = TT) l.
+Proof.
+  induction l as [|x l IH]; cbn; split; intro E; auto.
+  - destruct (f x) eqn:Ex; try discriminate. constructor; [assumption | apply IH, E].
+  - inversion E as [|? ? Ex El]; subst. rewrite Ex. apply IH, El.
+Qed.
+
+Lemma anyt_TT_ex {A} (f : A -> tri) l : anyt f l = TT -> Exists (fun x => f x = TT) l.
+Proof.
+  induction l as [|x l IH]; cbn; [discriminate|].
+  destruct (f x) eqn:Ex; intro E; try discriminate.
+  - left; assumption.
+  - right; auto.
+Qed.
+
+Lemma anyt_ex_TT {A} (f : A -> tri) l :
+  Forall (fun x => f x <> EE) l -> Exists (fun x => f x = TT) l -> anyt f l = TT.
+Proof.
+  induction l as [|x l IH]; cbn; intros Hn He; [inversion He|].
+  inversion Hn as [|? ? Hx Hl]; subst.
+  destruct (f x) eqn:Ex; try congruence.
+  inversion He as [? ? E|? ? E]; subst; [congruence | auto].
+Qed.
+
+Lemma allt_noraise {A} (f : A -> tri) l : Forall (fun x => f x <> EE) l -> allt f l <> EE.
+Proof.
+  induction l as [|x l IH]; cbn; intro Hn; [discriminate|].
+  inversion Hn as [|? ? Hx Hl]; subst. destruct (f x); try congruence. auto.
+Qed.
+Lemma anyt_noraise {A} (f : A -> tri) l : Forall (fun x => f x <> EE) l -> anyt f l <> EE.
+Proof.
+  induction l as [|x l IH]; cbn; intro Hn; [discriminate|].
+  inversion Hn as [|? ? Hx Hl]; subst. destruct (f x); try congruence. auto.
+Qed.
+
+End Unfold.
+
+(* ------------------------------------------------------------ equivalence under the ndim guard *)
+Section Equiv.
+Variable v : variants.
+Hypothesis Hg : v_intv_guard v = true.
+Notation eqR := (@eqt R Num_R v).
+
+Lemma tri_of_noraise b : tri_of b <> EE.
+Proof. destruct b; discriminate. Qed.
+Lemma tri_of_TT b : tri_of b = TT <-> b = true.
+Proof. destruct b; cbn; split; congruence. Qed.
+Lemma andt_noraise a b : a <> EE -> b <> EE -> andt a b <> EE.
+Proof. destruct a; cbn; congruence. Qed.
+Lemma andt_TT a b : andt a b = TT <-> a = TT /\ b = TT.
+Proof. destruct a; cbn; split; intro E; try tauto; try (destruct E; congruence); try congruence. Qed.
+
+Lemma tupt_noraise (l1 : list (obj R)) :
+  Forall (fun x => forall y, eqR x y <> EE) l1 -> forall l2, tupt eqR l1 l2 <> EE.
+Proof.
+  induction 1 as [|x l1 Hx Hl IH]; intros [|y l2]; cbn [tupt]; try discriminate.
+  specialize (Hx y). destruct (eqR x y); try congruence; try apply IH.
+Qed.
+Lemma zipt_noraise (l1 : list (obj R)) :
+  Forall (fun x => forall y, eqR x y <> EE) l1 -> forall l2, zipt eqR l1 l2 <> EE.
+Proof.
+  induction 1 as [|x l1 Hx Hl IH]; intros [|y l2]; cbn [zipt]; try discriminate.
+  specialize (Hx y). destruct (eqR x y); try congruence; try apply IH.
+Qed.
+
+Lemma setlike_noraise (l1 l2 : list (obj R)) :
+  Forall (fun x => forall y, eqR x y <> EE) l1 -> setlike_eqt v l1 l2 <> EE.
+Proof.
+  intro H1. unfold setlike_eqt. apply andt_noraise.
+  - apply allt_noraise. rewrite Forall_forall in *. intros s Hs.
+    apply anyt_noraise. rewrite Forall_forall. intros t _. apply H1, Hs.
+  - apply allt_noraise. rewrite Forall_forall. intros t _.
+    apply anyt_noraise. rewrite Forall_forall in *. intros s Hs. apply H1, Hs.
+Qed.
+
+Lemma eqt_noraise : forall a b : obj R, eqR a b <> EE.
+Proof.
+  induction a as [| |n| | | |l IH|l IH|l IH|els|e|g|t|p t|l w f IH] using obj_ind'; intro b;
+    destruct b; try (cbn; discriminate).
+  - cbn. apply tri_of_noraise.
+  - rewrite eqt_cart. apply tupt_noraise, IH.
+  - rewrite eqt_union. apply setlike_noraise, IH.
+  - rewrite eqt_inter. apply setlike_noraise, IH.
+  - cbn. apply tri_of_noraise.
+  - cbn. apply intv_eqt_noraise, Hg.
+  - cbn. apply tri_of_noraise.
+  - cbn. apply tri_of_noraise.
+  - cbn [eqt]. apply andt_noraise; [apply tri_of_noraise|].
+    apply andt_noraise; [apply tri_of_noraise | apply part_eqt_noraise, Hg].
+  - rewrite eqt_prod. destruct (negb _); [discriminate|]. destruct (negb _); [discriminate|].
+    apply zipt_noraise, IH.
+Qed.
+
+(* ---- reflexivity ---- *)
+Lemma tupt_refl (l : list (obj R)) : Forall (fun x => eqR x x = TT) l -> tupt eqR l l = TT.
+Proof. induction 1 as [|x l Hx Hl IH]; cbn; [reflexivity|]. rewrite Hx. exact IH. Qed.
+Lemma zipt_refl (l : list (obj R)) : Forall (fun x => eqR x x = TT) l -> zipt eqR l l = TT.
+Proof. induction 1 as [|x l Hx Hl IH]; cbn; [reflexivity|]. rewrite Hx. exact IH. Qed.
+
+Lemma Forall_all_noraise (l : list (obj R)) (f : obj R -> obj R -> tri) :
+  (forall a b, f a b <> EE) -> forall t, Forall (fun s => f s t <> EE) l.
+Proof. intros Hf t. apply Forall_forall. intros; apply Hf. Qed.
+
+Lemma setlike_refl (l : list (obj R)) : Forall (fun x => eqR x x = TT) l -> setlike_eqt v l l = TT.
+Proof.
+  intro Hl. unfold setlike_eqt. apply andt_TT; split; apply allt_TT; rewrite Forall_forall in *; intros s Hs.
+  - apply anyt_ex_TT.
+    + apply Forall_forall; intros; apply eqt_noraise.
+    + apply Exists_exists. exists s; split; [assumption | apply Hl, Hs].
+  - apply anyt_ex_TT.
+    + apply Forall_forall; intros; apply eqt_noraise.
+    + apply Exists_exists. exists s; split; [assumption | apply Hl, Hs].
+Qed.
+
+Lemma existsb_refl_atom (els : list (atom R)) x : In x els -> existsb (fun y => atom_eqb y x) els = true.
+Proof. intro Hx. apply existsb_exists. exists x; split; [assumption | apply atom_eqb_eq; reflexivity]. Qed.
+
+Lemma eqt_refl : forall a : obj R, eqR a a = TT.
+Proof.
+  induction a as [| |n| | | |l IH|l IH|l IH|els|e|g|t|p t|l w f IH] using obj_ind'; try reflexivity.
+  - cbn. rewrite Z.eqb_refl. reflexivity.
+  - rewrite eqt_cart. apply tupt_refl, IH.
+  - rewrite eqt_union. apply setlike_refl, IH.
+  - rewrite eqt_inter. apply setlike_refl, IH.
+  - cbn. apply tri_of_TT, andb_true_iff; split; apply forallb_forall; intros x Hx; apply existsb_refl_atom, Hx.
+  - cbn. apply (intv_eqt_TT v Hg). reflexivity.
+  - cbn. apply tri_of_TT, grid_eqb_eq. reflexivity.
+  - cbn. apply tri_of_TT, tsp_eqb_refl.
+  - cbn [eqt]. apply andt_TT; split.
+    + apply tri_of_TT, andb_true_iff; split; [apply Zs_eqb_eq | apply dtype_eqb_eq]; reflexivity.
+    + apply andt_TT; split; [apply tri_of_TT, tsp_eqb_refl | apply (part_eqt_TT v Hg); reflexivity].
+  - rewrite eqt_prod. rewrite Nat.eqb_refl. cbn [negb].
+    replace (w_eqb w w) with true by (symmetry; apply w_eqb_strip; reflexivity). cbn [negb].
+    apply zipt_refl, IH.
+Qed.
+
+(* ---- symmetry ---- *)
+Lemma w_eqb_sym (a b : weighting R) : w_eqb a b = w_eqb b a.
+Proof.
+  destruct (w_eqb a b) eqn:E1, (w_eqb b a) eqn:E2; try reflexivity.
+  - apply w_eqb_strip in E1. symmetry in E1. apply w_eqb_strip in E1. congruence.
+  - apply w_eqb_strip in E2. symmetry in E2. apply w_eqb_strip in E2. congruence.
+Qed.
+
+Lemma tupt_sym (l1 : list (obj R)) :
+  Forall (fun x => forall y, eqR x y = TT -> eqR y x = TT) l1 ->
+  forall l2, tupt eqR l1 l2 = TT -> tupt eqR l2 l1 = TT.
+Proof.
+  induction 1 as [|x l1 Hx Hl IH]; intros [|y l2]; cbn [tupt]; try discriminate; auto.
+  destruct (eqR x y) eqn:E; try discriminate. intro E2. rewrite (Hx _ E). apply IH, E2.
+Qed.
+Lemma zipt_sym (l1 : list (obj R)) :
+  Forall (fun x => forall y, eqR x y = TT -> eqR y x = TT) l1 ->
+  forall l2, zipt eqR l1 l2 = TT -> zipt eqR l2 l1 = TT.
+Proof.
+  induction 1 as [|x l1 Hx Hl IH]; intros [|y l2]; cbn [zipt]; try discriminate; auto.
+  destruct (eqR x y) eqn:E; try discriminate. intro E2. rewrite (Hx _ E). apply IH, E2.
+Qed.
+
+(* the meaning of the two-sided membership test once nothing raises *)
+Lemma setlike_TT (l1 l2 : list (obj R)) :
+  setlike_eqt v l1 l2 = TT <->
+  (forall s, In s l1 -> exists t, In t l2 /\ eqR s t = TT) /\
+  (forall t, In t l2 -> exists s, In s l1 /\ eqR s t = TT).
+Proof.
+  unfold setlike_eqt. rewrite andt_TT, !allt_TT, !Forall_forall. split; intros [H1 H2]; split.
+  - intros s Hs. apply H1, anyt_TT_ex, Exists_exists in Hs. exact Hs.
+  - intros t Ht. apply H2, anyt_TT_ex, Exists_exists in Ht. exact Ht.
+  - intros s Hs. apply anyt_ex_TT; [apply Forall_forall; intros; apply eqt_noraise|].
+    apply Exists_exists, H1, Hs.
+  - intros t Ht. apply anyt_ex_TT; [apply Forall_forall; intros; apply eqt_noraise|].
+    apply Exists_exists, H2, Ht.
+Qed.
+
+Lemma setlike_sym (l1 l2 : list (obj R)) :
+  Forall (fun x => forall y, eqR x y = TT -> eqR y x = TT) l1 ->
+  setlike_eqt v l1 l2 = TT -> setlike_eqt v l2 l1 = TT.
+Proof.
+  intro IH. rewrite Forall_forall in IH. rewrite !setlike_TT. intros [H1 H2]; split.
+  - intros t Ht. destruct (H2 t Ht) as [s [Hs E]]. exists s; split; [assumption | apply IH; assumption].
+  - intros s Hs. destruct (H1 s Hs) as [t [Ht E]]. exists t; split; [assumption | apply IH; assumption].
+Qed.
+
+Lemma eqt_sym_TT : forall a b : obj R, eqR a b = TT -> eqR b a = TT.
+Proof.
+  induction a as [| |n| | | |l IH|l IH|l IH|els|e|g|t|p t|l w f IH] using obj_ind'; intro b;
+    destruct b; try (cbn; discriminate); try (cbn; reflexivity).
+  - cbn. rewrite Z.eqb_sym. auto.
+  - rewrite !eqt_cart. apply tupt_sym, IH.
+  - rewrite !eqt_union. apply setlike_sym, IH.
+  - rewrite !eqt_inter. apply setlike_sym, IH.
+  - cbn. rewrite andb_comm. auto.
+  - cbn. rewrite !(intv_eqt_TT v Hg). congruence.
+  - cbn. rewrite !tri_of_TT, !grid_eqb_eq. congruence.
+  - cbn. rewrite (tsp_eqb_sym t). auto.
+  - cbn [eqt]. rewrite !andt_TT, !tri_of_TT, !(part_eqt_TT v Hg), !andb_true_iff, !Zs_eqb_eq, !dtype_eqb_eq.
+    rewrite (tsp_eqb_sym t0 t). intuition congruence.
+  - rewrite !eqt_prod. rewrite (Nat.eqb_sym (length l0)), (w_eqb_sym w0).
+    destruct (negb _); [discriminate|]. destruct (negb _); [discriminate|]. apply zipt_sym, IH.
+Qed.
+
+Theorem eqt_sym (a b : obj R) : eqR a b = eqR b a.
+Proof.
+  pose proof (eqt_noraise a b). pose proof (eqt_noraise b a).
+  destruct (eqR a b) eqn:E1, (eqR b a) eqn:E2; try congruence.
+  - apply eqt_sym_TT in E1. congruence.
+  - apply eqt_sym_TT in E2. congruence.
+Qed.
+
+(* ---- transitivity ---- *)
+Lemma w_eqb_trans (a b c : weighting R) : w_eqb a b = true -> w_eqb b c = true -> w_eqb a c = true.
+Proof. rewrite !w_eqb_strip. congruence. Qed.
+Lemma tsp_eqb_trans (a b c : tsp R) : tsp_eqb a b = true -> tsp_eqb b c = true -> tsp_eqb a c = true.
+Proof. rewrite !tsp_eqb_strip. congruence. Qed.
+
+Lemma tupt_trans (l1 : list (obj R)) :
+  Forall (fun x => forall y z, eqR x y = TT -> eqR y z = TT -> eqR x z = TT) l1 ->
+  forall l2 l3, tupt eqR l1 l2 = TT -> tupt eqR l2 l3 = TT -> tupt eqR l1 l3 = TT.
+Proof.
+  induction 1 as [|x l1 Hx Hl IH]; intros [|y l2] [|z l3]; cbn [tupt]; try discriminate; auto.
+  destruct (eqR x y) eqn:E; try discriminate. destruct (eqR y z) eqn:E'; try discriminate.
+  intros E2 E3. rewrite (Hx _ _ E E'). eapply IH; eassumption.
+Qed.
+Lemma zipt_len_trans (l1 : list (obj R)) :
+  Forall (fun x => forall y z, eqR x y = TT -> eqR y z = TT -> eqR x z = TT) l1 ->
+  forall l2 l3, length l1 = length l2 -> zipt eqR l1 l2 = TT -> zipt eqR l2 l3 = TT -> zipt eqR l1 l3 = TT.
+Proof.
+  induction 1 as [|x l1 Hx Hl IH]; intros [|y l2] [|z l3]; cbn [zipt length]; try discriminate; auto.
+  intro L. destruct (eqR x y) eqn:E; try discriminate. destruct (eqR y z) eqn:E'; try discriminate.
+  intros E2 E3. rewrite (Hx _ _ E E'). eapply IH; try eassumption. lia.
+Qed.
+
+Lemma setlike_trans (l1 l2 l3 : list (obj R)) :
+  Forall (fun x => forall y z, eqR x y = TT -> eqR y z = TT -> eqR x z = TT) l1 ->
+  setlike_eqt v l1 l2 = TT -> setlike_eqt v l2 l3 = TT -> setlike_eqt v l1 l3 = TT.
+Proof.
+  intro IH. rewrite Forall_forall in IH. rewrite !setlike_TT. intros [A1 A2] [B1 B2]; split.
+  - intros s Hs. destruct (A1 s Hs) as [t [Ht E]]. destruct (B1 t Ht) as [u [Hu E']].
+    exists u; split; [assumption | eapply IH; eassumption].
+  - intros u Hu. destruct (B2 u Hu) as [t [Ht E']]. destruct (A2 t Ht) as [s [Hs E]].
+    exists s; split; [assumption | eapply IH; eassumption].
+Qed.
+
+Lemma finite_TT (e1 e2 : list (atom R)) :
+  forallb (fun x => existsb (fun y => atom_eqb y x) e2) e1 &&
+  forallb (fun y => existsb (fun x => atom_eqb x y) e1) e2 = true <->
+  (forall x, In x e1 <-> In x e2).
+Proof.
+  rewrite andb_true_iff, !forallb_forall. split.
+  - intros [H1 H2] x; split; intro Hx.
+    + apply H1, existsb_exists in Hx. destruct Hx as [y [Hy E]]. apply atom_eqb_eq in E. congruence.
+    + apply H2, existsb_exists in Hx. destruct Hx as [y [Hy E]]. apply atom_eqb_eq in E. congruence.
+  - intro Hx. split; intros x Hin; apply existsb_exists; exists x; (split; [apply Hx, Hin | apply atom_eqb_eq; reflexivity]).
+Qed.
+
+Theorem eqt_trans : forall a b c : obj R, eqR a b = TT -> eqR b c = TT -> eqR a c = TT.
+Proof.
+  induction a as [| |n| | | |l IH|l IH|l IH|els|e|g|t|p t|l w f IH] using obj_ind'; intros b c;
+    destruct b; try (cbn; discriminate); destruct c; try (cbn; discriminate); try (cbn; reflexivity).
+  - cbn. rewrite !tri_of_TT, !Z.eqb_eq. congruence.
+  - rewrite !eqt_cart. apply tupt_trans, IH.
+  - rewrite !eqt_union. apply setlike_trans, IH.
+  - rewrite !eqt_inter. apply setlike_trans, IH.
+  - cbn. rewrite !tri_of_TT, !finite_TT. intros A B x. rewrite A. apply B.
+  - cbn. rewrite !(intv_eqt_TT v Hg). congruence.
+  - cbn. rewrite !tri_of_TT, !grid_eqb_eq. congruence.
+  - cbn. rewrite !tri_of_TT. apply tsp_eqb_trans.
+  - cbn [eqt]. rewrite !andt_TT, !tri_of_TT, !(part_eqt_TT v Hg), !andb_true_iff, !Zs_eqb_eq, !dtype_eqb_eq.
+    intros [[A1 A2] [A3 A4]] [[B1 B2] [B3 B4]]. repeat split; try congruence.
+    eapply tsp_eqb_trans; eassumption.
+  - rewrite !eqt_prod.
+    destruct (Nat.eqb (length l) (length l0)) eqn:L1; [|discriminate].
+    destruct (Nat.eqb (length l0) (length l1)) eqn:L2; [|discriminate].
+    apply Nat.eqb_eq in L1, L2. replace (Nat.eqb (length l) (length l1)) with true by (symmetry; apply Nat.eqb_eq; lia).
+    cbn [negb]. destruct (w_eqb w w0) eqn:W1; [|discriminate]. destruct (w_eqb w0 w1) eqn:W2; [|discriminate].
+    rewrite (w_eqb_trans _ _ _ W1 W2). cbn [negb]. apply zipt_len_trans; assumption.
+Qed.
+
+End Equiv.
